@@ -23,7 +23,7 @@
 From Coq Require Import List NArith ZArith Bool Permutation.
 From SK Require Import lib.LGraph model.C01_Model model.C02_Model model.C09_Model
   proof.C09_Canon proof.C09_Valid proof.C09_Balance proof.C09_Main proof.C09_Indep proof.C09_Indep2 proof.C09_ValidRC proof.C09_WL proof.C09_NautyRigid proof.C09_Nauty.
-From SK Require Import lib.StrJoin model.C09_Strings model.C09_State proof.C09_Str proof.C09_Expand proof.C09_Graph proof.C09_Backends proof.C09_State.
+From SK Require Import lib.StrJoin model.C09_Strings model.C09_State proof.C09_Str proof.C09_Expand proof.C09_Graph proof.C09_Backends proof.C09_State proof.C09_StrFit.
 From SK Require model.C08_Model proof.C08_Spec model.C01_Opts.
 Import ListNotations.
 
@@ -365,6 +365,20 @@ Theorem C09_std_fit_shape : forall (clean : str -> option str) (canon : bool -> 
                standardize_rsmi (canon (negb ist)) s1 = SSome t /\ u = replace_HH t.
 Proof. exact std_fit_shape. Qed.
 Print Assumptions C09_std_fit_shape.
+
+(** Standardize.fit is idempotent for EVERY input string and every option combination, relative to two explicit RDKit
+    contracts (monitored by the clause standardize-idempotent on every run): the writer contract of one fragment, and
+    [side_contract]: a side of a standard form - sorted canonical fragments joined by '.', "[HH]" written "[H][H]" - is read
+    back ([reader]: with remove_aam=True through remove_atom_mapping's cleaned side string, which contains no '>') as the same
+    fragments.  The model part: replace_HH commutes with the '.' / '>>' structure (proof/C09_StrFit.v), split / join /
+    sorted / filter as above. *)
+Theorem C09_std_fit_idempotent : forall (clean : str -> option str) (canon : bool -> str -> option str) (ra ist : bool) (s u : str),
+  (forall f c, canon (negb ist) f = Some c -> canon (negb ist) c = Some c /\ nosep DOT c /\ nosep GT c) ->
+  (forall A : list str, A <> [] -> (forall f, In f A -> exists g, canon (negb ist) g = Some f) ->
+     exists B, reader clean (canon (negb ist)) ra (replace_HH (join DOT A)) = Some B /\ Permutation B A) ->
+  std_fit clean canon ra ist s = SSome u -> std_fit clean canon ra ist u = SSome u.
+Proof. exact std_fit_idempotent. Qed.
+Print Assumptions C09_std_fit_idempotent.
 
 (** categorize_reactions: loss-free split; a reaction matches exactly when it IS the standard form of the target *)
 Theorem C09_categorize_spec : forall (canon : bool -> str -> option str) (rs : list str) (target : str) (m n : list str),
